@@ -259,6 +259,7 @@ class NDNApp:
             self._remove_pending(future, node_name, node)
             raise InterestTimeout()
         except aio.CancelledError:
+            self._remove_pending(future, node_name, node)
             raise InterestCanceled()
         if validator is None:
             validator = self.data_validator
